@@ -53,6 +53,54 @@ fn check_desc(rep: &Report, c: &DescCase, thorough: bool, cen: &mut Census) {
         for (cap, cansign, capname) in caps_for(c) {
             let sat = WorldSat { world: &w, spend: &spend, sign: &c.sign, schnorr_all: false, lie_locks: false, cap };
             let assets = assets_for_cap(c, &w, cansign);
+            // the same assets assembled through the builder API (add / after / older, IntoAssets for
+            // keys and for each hash kind) are the same value
+            if capname == "default" {
+                use miniscript::ForEachKey;
+                let mut b = miniscript::plan::Assets::new();
+                let mut held: Vec<miniscript::DescriptorPublicKey> = vec![];
+                c.desc.for_each_key(|k| {
+                    let dk = k.clone().into_descriptor_public_key();
+                    if assets.keys.iter().any(|((fp, _), _)| *fp == dk.master_fingerprint()) && !held.contains(&dk) {
+                        held.push(dk);
+                    }
+                    true
+                });
+                // one key alone, the rest as a vector
+                if let Some(first) = held.first().cloned() {
+                    b = b.add(first);
+                    b = b.add(held[1..].to_vec());
+                }
+                for h in &assets.sha256_preimages {
+                    b = b.add(*h);
+                }
+                for h in &assets.hash256_preimages {
+                    b = b.add(*h);
+                }
+                for h in &assets.ripemd160_preimages {
+                    b = b.add(*h);
+                }
+                for h in &assets.hash160_preimages {
+                    b = b.add(*h);
+                }
+                if let Some(l) = assets.absolute_timelock {
+                    b = b.after(l);
+                }
+                if let Some(l) = assets.relative_timelock {
+                    b = b.older(l);
+                }
+                // adding an empty set changes nothing (in particular not the locks already set)
+                b = b.add(miniscript::plan::Assets::new());
+                bump(cen, "asset_builders_compared");
+                if b != assets {
+                    rep.violation(Violation {
+                        key: format!("C17|asset-builder|{}|{}", dsx, w.short()),
+                        class: "assets-builder-differs".into(),
+                        what: format!("assets assembled with add / after / older differ from the same assets written as fields: {:?} vs {:?}", b, assets),
+                        case: json!({"desc": c.desc.to_string(), "world": w.json()}),
+                    });
+                }
+            }
             for mall in [false, true] {
                 bump(cen, "evaluations");
                 let mode = if mall { "mall" } else { "nonmall" };
